@@ -211,7 +211,7 @@ def deep(x):
 
 def merged_case(rng):
     """ConflictResolution.ALWAYS_MERGE: one class (no members of dataclass type) registered at 2-3 destinations - one group
-    whose heading lists every destination; sometimes a second class with other field names at one more destination"""
+    whose heading lists every destination (merging of different classes through a shared spelling is C11's subject)"""
     def flat_tree(names):
         fields = []
         for nme in names:
@@ -233,13 +233,6 @@ def merged_case(rng):
     pool = ["alpha", "beta", "gamma", "d1", "zeta", "eta"]
     dests = rng.sample(pool, rng.randint(2, 3))
     items = [[d, deep(shared), ""] for d in dests]
-    rest = [x for x in NAMES if x not in names]
-    if rng.random() < 0.3 and rest:
-        other = flat_tree(rng.sample(rest, 1))
-        for f in other["fields"]:
-            f["aliases"] = []
-        if not any(not drv.exposed(f) for f in other["fields"]):
-            items.insert(rng.randint(0, len(items)), [rng.choice([x for x in pool if x not in dests]), other, ""])
     c = {"dv": rng.choice(list(DV)), "gm": "FLAT", "nm": "DEFAULT", "mode": "ALWAYS_MERGE", "dests": items}
     return add_source(rng, name_classes(c), "none")
 
